@@ -33,6 +33,9 @@ def run(ctx: Ctx, chk) -> None:
     chk.run_rule(tasks1, ctx)
     chk.run_rule(save_total, ctx)
     chk.run_rule(saver_esc, ctx)
+    from .orderedio import ordered_io
+
+    chk.run_rule(ordered_io, ctx)
     chk.run_rule(disc1, ctx)
     from . import connleak
 
